@@ -72,7 +72,7 @@ static inline int
 bn_is_zero(bn_p bn)
 __CPROVER_requires(VF_ECBN_R(bn))
 __CPROVER_assigns(vf_g.iz)
-__CPROVER_ensures(__CPROVER_return_value == ((bn->digits == 0) ? 1 : 0))
+__CPROVER_ensures((__CPROVER_return_value != 0) == (bn->digits == 0))
 __CPROVER_ensures(vf_n_iz == __CPROVER_old(vf_n_iz) + 1u &&
     VF_IO_SLOTS4(vf_n_iz, vf_iz_bn, VF_ID(bn)) && VF_IO_SLOTS4(vf_n_iz, vf_iz_r, __CPROVER_return_value))
 ;
@@ -197,7 +197,8 @@ __CPROVER_ensures(__CPROVER_return_value == 0 ==> vf_bn_wf(*bn))
 __CPROVER_ensures((__CPROVER_return_value == 0 && vf_bn_val(__CPROVER_old(*bn)) < vf_bn_val(*m) &&
     vf_bn_val(__CPROVER_old(*n)) < vf_bn_val(*m)) ==> vf_bn_val(*bn) < vf_bn_val(*m))
 ;
-/* (bn - n) mod m, ends in bn_mod: result < m */
+/* (bn - n) mod m: frame, status, well-formed result (C01 r3.bn_mod_sub.* enforces this and the value for
+ * residue operands; no value clause is used here) */
 static inline int
 bn_mod_sub(bn_p bn, bn_p n, bn_p m, bn_mod_rd_data_p mod_rd_data)
 __CPROVER_requires(VF_ECBN_RW(bn) && VF_ECBN_R(n) && VF_ECBN_R(m) && bn != m)
@@ -209,11 +210,12 @@ __CPROVER_ensures(vf_n_msub == __CPROVER_old(vf_n_msub) + 1u &&
     vf_msub_z1 == ((__CPROVER_old(vf_n_msub) == 1) ? (__CPROVER_return_value == 0 && bn->digits == 0) : __CPROVER_old(vf_msub_z1)))
 __CPROVER_ensures((__CPROVER_old(vf_n_msub) == 0) ? (vf_msub_bn0 == VF_ID(bn) && vf_msub_n0 == VF_ID(n) && vf_msub_m0 == VF_ID(m)) :
     (vf_msub_bn0 == __CPROVER_old(vf_msub_bn0) && vf_msub_n0 == __CPROVER_old(vf_msub_n0) && vf_msub_m0 == __CPROVER_old(vf_msub_m0)))
-__CPROVER_ensures(__CPROVER_return_value == 0 ==> (vf_bn_wf(*bn) && VF_LT(vf_bn_val(*bn), vf_bn_val(*m))))
+__CPROVER_ensures(__CPROVER_return_value == 0 ==> vf_bn_wf(*bn))
 ;
 VF_ECBN_MODOP1(bn_mod_sqrt)
-/* bn^-1 mod m; first line of bn_mod_inv_bin: bn == 0, m == 0 or bn >= m is EINVAL.
- * On success the inverse is a non-zero residue. */
+/* bn^-1 mod m.  Same clauses as the contract ENFORCED in C01 (r3.bn_mod_inv_bin.loops.w8.n7): bn == 0,
+ * m == 0, bn >= m or an even modulus is EINVAL; on success the result is a well-formed residue.
+ * ("result != 0 and result * bn == 1 mod m" is NOT used here.) */
 static inline int
 bn_mod_inv_bin(bn_p bn, bn_p m, bn_mod_rd_data_p mod_rd_data)
 __CPROVER_requires(VF_ECBN_RW(bn) && VF_ECBN_R(m) && bn != m)
@@ -221,8 +223,8 @@ __CPROVER_assigns(VF_BN_FRAME(bn))
 __CPROVER_assigns(VF_EC_STATUS_ASSIGNS)
 __CPROVER_ensures(VF_EC_STATUS_ENSURES)
 __CPROVER_ensures((vf_bn_val(__CPROVER_old(*bn)) == 0 || vf_bn_val(*m) == 0 ||
-    vf_bn_val(__CPROVER_old(*bn)) >= vf_bn_val(*m)) ==> __CPROVER_return_value == EINVAL)
-__CPROVER_ensures(__CPROVER_return_value == 0 ==> (vf_bn_wf(*bn) && vf_bn_val(*bn) != 0 && vf_bn_val(*bn) < vf_bn_val(*m)))
+    vf_bn_val(__CPROVER_old(*bn)) >= vf_bn_val(*m) || (vf_bn_val(*m) & 1) == 0) ==> __CPROVER_return_value == EINVAL)
+__CPROVER_ensures(__CPROVER_return_value == 0 ==> (vf_bn_wf(*bn) && VF_LT(vf_bn_val(*bn), vf_bn_val(*m))))
 ;
 /* bn unchanged if bn < m, else (bn mod (m - 1)) + 1: in both cases the result is < m, and it is
  * non-zero unless bn was zero (first lines of the function; C01 r3.bn_mod_reduce.*) */
